@@ -113,7 +113,7 @@ def raw_sequence(seed, index, acc, count=True):
     for _ in range(nops):
         side = rng.randrange(2)
         k = rng.choice(("user", "user", "user", "event", "event", "event", "dup", "stale", "batch", "latest", "link", "finish",
-                        "discard", "split", "commit"))
+                        "discard", "split", "commit", "merge", "clear"))
         kinds.append(k)
         try:
             if k == "user":
@@ -186,6 +186,26 @@ def raw_sequence(seed, index, acc, count=True):
                 if ents:
                     with st.lock:
                         st.split(rng.choice(ents))
+            elif k == "merge":
+                # the merge primitive the manager uses (ent[side] = other[side]: manager.py resolver merge, merge of split
+                # entries, handle_split_conflict): a half with an id is moved into an entry that has none on that side
+                donors = [e for e in st.get_all() if e[side].oid and not e[1 - side].oid]
+                takers = [e for e in st.get_all() if not e[side].oid]
+                if donors and takers:
+                    d = rng.choice(donors)
+                    t = rng.choice([x for x in takers if x is not d] or [None])
+                    if t is not None:
+                        with st.lock:
+                            t[side] = d[side]
+                            if rng.random() < 0.5:
+                                d.ignore(IgnoreReason.DISCARDED)
+            elif k == "clear":
+                # an entry's side forgotten and finished, as after a deletion has been synchronised
+                ents = [e for e in st.get_all() if e[side].oid]
+                if ents:
+                    e = rng.choice(ents)
+                    with st.lock:
+                        e[side].clear()
             elif k == "commit":
                 st.storage_commit()
         except RecursionError:
